@@ -7,6 +7,8 @@ step function reproduce every recorded output.  It is generic in the step functi
 driver instantiates it with the C01 model's `step`.
 -/
 import SwV.Model.C01
+import SwV.Spec.C01
+import SwV.Model.C01Codec
 namespace SwV.Spec.C38
 open SwV.Model.C01
 
@@ -63,5 +65,24 @@ def strictOrWild (c : Rcd) (outs : List String) : Bool := c.outs == ["*"] || out
 def linearize {σ : Type} (stepf : σ → Op → σ × List String) (okf : Rcd → List String → Bool) (st0 : σ)
     (calls : List Rcd) (fuel : Nat) : Verdict :=
   (search stepf okf (calls.length + 1) st0 calls fuel).1
+
+/-! ## the per-key decomposition the driver uses (justified by `SwV.Props.C38.linearizable_of_per_key`) -/
+
+/-- the file ids that occur in a history, in order of first occurrence -/
+def keysOf (cs : List Rcd) : List Nat :=
+  cs.foldl (fun acc c => if acc.contains (SwV.Spec.C01.opId c.op) then acc else acc ++ [SwV.Spec.C01.opId c.op]) []
+
+/-- the calls on one file id, in recording order -/
+def subHistory (cs : List Rcd) (k : Nat) : List Rcd := cs.filter fun c => SwV.Spec.C01.opId c.op == k
+
+/-- an operation that addresses one file id (everything but the read-only toggle, which is global) -/
+def keyed : Op → Bool
+  | .setRO _ => false
+  | _ => true
+
+/-- the sequential oracle of the search: the C01 model's step with its outputs as protocol tokens -/
+def modelStep (st : Vol) (op : Op) : Vol × List String :=
+  let (st', o) := step st op
+  (st', SwV.Codec.C01.mToks o)
 
 end SwV.Spec.C38
